@@ -720,6 +720,9 @@ def build_evidence(prop, tier, level, agg, bagg, resA, resB, D, bounded, wall, n
 
 def write_evidence(prop, ev):
     d = os.path.join(VERIF, "evidence")
+    if os.path.realpath(str(ev.get("coverage", {}).get("tree", "/repo"))) != os.path.realpath("/repo"):
+        # a run against a scratch tree (seeded / harmless sweeps via --tree) must not clobber the evidence of /repo
+        d = os.path.join(VERIF, ".scratch_evidence")
     os.makedirs(d, exist_ok=True)
     with open(os.path.join(d, f"{prop}.json"), "w") as f:
         json.dump(ev, f, indent=1, default=str)
